@@ -98,15 +98,28 @@ theorem skipWs_token (rest : List Nat) (h : startsToken rest = true) : skipWs re
     simp [startsToken] at h
     simp [skipWs, h.1]
 
-theorem skipLine_body (body rest : List Nat) (h : noLf body = true) :
-    skipLine (body ++ 0x0A :: rest) = 0x0A :: rest := by
+theorem skipLine_body (body rest : List Nat) (eol : Nat) (h : noVertical body = true)
+    (he : isVerticalSpace eol = true) : skipLine (body ++ eol :: rest) = eol :: rest := by
   induction body with
-  | nil => simp [skipLine]
+  | nil => simp [skipLine, he]
   | cons c cs ih =>
-    simp [noLf] at h
+    simp only [noVertical, List.all_cons, Bool.and_eq_true, Bool.not_eq_true'] at h
     simp only [List.cons_append, skipLine]
-    rw [if_neg (by simpa using h.1)]
-    exact ih (by simpa [noLf] using h.2)
+    rw [if_neg (by simp [h.1])]
+    exact ih (by simpa [noVertical] using h.2)
+
+/-- A line comment that runs to the end of the input is skipped whole. -/
+theorem skipLine_eof (body : List Nat) (h : noVertical body = true) : skipLine body = [] := by
+  induction body with
+  | nil => rfl
+  | cons c cs ih =>
+    simp only [noVertical, List.all_cons, Bool.and_eq_true, Bool.not_eq_true'] at h
+    simp only [skipLine]
+    rw [if_neg (by simp [h.1])]
+    exact ih (by simpa [noVertical] using h.2)
+
+theorem isWhitespace_of_vertical {c : Nat} (h : isVerticalSpace c = true) : isWhitespace c = true := by
+  simp [isWhitespace, h]
 
 theorem skipBlock_body (body rest : List Nat) (h : noClose body = true) :
     skipBlock (body ++ 0x2A :: 0x2F :: rest) = rest := by
@@ -172,18 +185,18 @@ theorem skipGap_ws (w X : List Nat) (h : allWs w = true) : skipGap (w ++ X) = sk
 /-- A comment in front changes nothing. -/
 theorem skipGap_comment (c : Comment) (X : List Nat) (h : c.ok = true) : skipGap (c.text ++ X) = skipGap X := by
   cases c with
-  | line body =>
-    simp only [Comment.ok] at h
-    have hstep : skipStep (Comment.text (.line body) ++ X) = 0x0A :: X := by
+  | line body eol =>
+    simp only [Comment.ok, Bool.and_eq_true] at h
+    have hstep : skipStep (Comment.text (.line body eol) ++ X) = eol :: X := by
       simp only [skipStep, Comment.text, List.cons_append, List.append_assoc, List.nil_append]
-      have h1 : skipWs (0x2F :: 0x2F :: (body ++ 0x0A :: X)) = 0x2F :: 0x2F :: (body ++ 0x0A :: X) := by
+      have h1 : skipWs (0x2F :: 0x2F :: (body ++ eol :: X)) = 0x2F :: 0x2F :: (body ++ eol :: X) := by
         simp [skipWs, isWhitespace, isVerticalSpace]
       rw [h1]
       simp only [skipComment, beq_self_eq_true, if_true]
-      exact skipLine_body _ _ h
+      exact skipLine_body _ _ _ h.1 h.2
     rw [skipGap.eq_def, hstep]
     rw [dif_pos (by simp [Comment.text]; omega)]
-    exact skipGap_ws [0x0A] X (by decide)
+    exact skipGap_ws [eol] X (by simp [allWs, isWhitespace_of_vertical h.2])
   | block body =>
     simp only [Comment.ok] at h
     have hstep : skipStep (Comment.text (.block body) ++ X) = X := by
@@ -209,6 +222,30 @@ theorem skipGap_gap : ∀ (g : Gap) (rest : List Nat), gapOk g = true → starts
     cases p with
     | ws cs => rw [Piece.text, skipGap_ws _ _ (by simpa [Piece.ok] using hg.1), ih]
     | comment c => rw [Piece.text, skipGap_comment _ _ (by simpa [Piece.ok] using hg.1), ih]
+
+/-- Any sequence of white space and comments in front of ANY text changes nothing. -/
+theorem skipGap_gap_any : ∀ (g : Gap) (X : List Nat), gapOk g = true → skipGap (gapText g ++ X) = skipGap X
+  | [], X, _ => by simp [gapText]
+  | p :: ps, X, hg => by
+    simp only [gapOk, List.all_cons, Bool.and_eq_true] at hg
+    have ih := skipGap_gap_any ps X (by simpa [gapOk] using hg.2)
+    simp only [gapText, List.append_assoc]
+    cases p with
+    | ws cs => rw [Piece.text, skipGap_ws _ _ (by simpa [Piece.ok] using hg.1), ih]
+    | comment c => rw [Piece.text, skipGap_comment _ _ (by simpa [Piece.ok] using hg.1), ih]
+
+/-- A line comment that is not closed runs to the end of the input: nothing is left. -/
+theorem skipGap_open_line (body : List Nat) (h : noVertical body = true) :
+    skipGap (0x2F :: 0x2F :: body) = [] := by
+  have hstep : skipStep (0x2F :: 0x2F :: body) = [] := by
+    have h1 : skipWs (0x2F :: 0x2F :: body) = 0x2F :: 0x2F :: body := by
+      simp [skipWs, isWhitespace, isVerticalSpace]
+    simp only [skipStep, h1, skipComment, beq_self_eq_true, if_true]
+    exact skipLine_eof body h
+  rw [skipGap.eq_def, hstep]
+  rw [dif_pos (by simp)]
+  rw [skipGap.eq_def]
+  simp [skipStep, skipWs, skipComment]
 
 /-! ## `is_next_character`: the gap after `function`, `list`, `range`, `context` -/
 
@@ -315,16 +352,16 @@ theorem nextIs_starts (chars : List Nat) (cs : List Nat) (hs : startsComment cs 
 theorem nextIs_comment (chars : List Nat) (hp : plainChars chars = true) (c : Comment) (X : List Nat)
     (h : c.ok = true) : nextIs chars (c.text ++ X) = nextIs chars X := by
   cases c with
-  | line body =>
-    simp only [Comment.ok] at h
-    have hsk : skipComment (Comment.text (.line body) ++ X) = 0x0A :: X := by
+  | line body eol =>
+    simp only [Comment.ok, Bool.and_eq_true] at h
+    have hsk : skipComment (Comment.text (.line body eol) ++ X) = eol :: X := by
       simp only [Comment.text, List.cons_append, List.append_assoc, List.nil_append, skipComment,
         beq_self_eq_true, if_true]
-      exact skipLine_body _ _ h
-    have hs : startsComment (Comment.text (.line body) ++ X) = true := by
+      exact skipLine_body _ _ _ h.1 h.2
+    have hs : startsComment (Comment.text (.line body eol) ++ X) = true := by
       simp [Comment.text, startsComment]
     rw [nextIs_starts chars _ hs, hsk]
-    exact nextIs_ws chars hp [0x0A] X (by decide)
+    exact nextIs_ws chars hp [eol] X (by simp [allWs, isWhitespace_of_vertical h.2])
   | block body =>
     simp only [Comment.ok] at h
     have hsk : skipComment (Comment.text (.block body) ++ X) = X := by
